@@ -193,6 +193,11 @@ def Map.empty (nb : Nat) (ns : Nat) (n : Nat) : Map X :=
     u := Array.replicate n false
     a := (Array.replicate ns (Array.replicate (n + 1) none)).setIfInBounds 0 (Array.replicate n none) }
 
+/-- pad the storage list to `ns` storages (the new ones undefined everywhere); used by the session
+    so that every registered attribute kind has its vector -/
+def Map.withStorages (m : Map X) (ns : Nat) : Map X :=
+  { m with a := m.a ++ Array.replicate (ns - m.a.size) (Array.replicate (m.n + 1) none) }
+
 /-- `add_free_darts(k)`; returns the first new id -/
 def Map.addFreeDarts (m : Map X) (k : Nat) : Nat × Map X :=
   (m.n, { m with
